@@ -79,40 +79,52 @@ func nframes(s StoreSpec) int {
 	return len(s.E)
 }
 
-// storeOptions: every (shape, fault) for store i; the first option of each shape is the healthy one.
-func storeOptions(i int, shapes []int, withHang bool) []StoreSpec {
+// storeOptions: every (shape, fault, error kind) for store i; the first option of each shape is the healthy one.
+// ekinds = error kinds of the open and recv faults, hkinds = error kinds of the hang fault (nil: no hang faults).
+func storeOptions(i int, shapes []int, ekinds, hkinds []string) []StoreSpec {
 	var out []StoreSpec
 	for _, id := range shapes {
 		base := shape(i, id)
 		out = append(out, base)
-		f := base
-		f.Fault = "open"
-		out = append(out, f)
-		kinds := []string{"recv"}
-		if withHang {
-			kinds = append(kinds, "hang")
+		for _, ek := range ekinds {
+			f := base
+			f.Fault, f.Kind = "open", ek
+			out = append(out, f)
 		}
-		for _, kind := range kinds {
-			for k := 0; k <= nframes(base); k++ {
-				f := base
-				f.Fault, f.At = kind, k
-				out = append(out, f)
+		for _, fault := range []string{"recv", "hang"} {
+			kinds := ekinds
+			if fault == "hang" {
+				kinds = hkinds
+			}
+			for _, ek := range kinds {
+				for k := 0; k <= nframes(base); k++ {
+					f := base
+					f.Fault, f.At, f.Kind = fault, k, ek
+					out = append(out, f)
+				}
 			}
 		}
 	}
 	return out
 }
 
+// block: k stores over the given shapes. kinds=false: the failing stores fail with the plain error / the bare
+// context error only; kinds=true: every failing store independently ranges over the whole error-kind alphabet
+// (errKinds for open and recv faults, hangKinds for hang faults); the assignments in which every failing store
+// has the plain kind are skipped there, they are part of the kinds=false block with the same k.
 type block struct {
 	k      int
 	shapes []int
+	kinds  bool
 }
 
 func gen(r *vlib.R) iter.Seq[Case] {
-	blocks := []block{{1, []int{0, 1, 2, 3}}, {2, []int{0, 1, 2, 3}}, {3, []int{1, 2}}}
+	blocks := []block{{1, []int{0, 1, 2, 3}, false}, {2, []int{0, 1, 2, 3}, false}, {3, []int{1, 2}, false},
+		{1, []int{0, 1, 2, 3}, true}, {2, []int{0, 2}, true}}
 	bufs, batches := []int{1, 2}, []int{0, 2}
 	if r.Thorough() {
-		blocks = []block{{1, []int{0, 1, 2, 3, 4}}, {2, []int{0, 1, 2, 3, 4}}, {3, []int{0, 1, 2, 3, 4}}, {4, []int{1, 2}}}
+		blocks = []block{{1, []int{0, 1, 2, 3, 4}, false}, {2, []int{0, 1, 2, 3, 4}, false}, {3, []int{0, 1, 2, 3, 4}, false}, {4, []int{1, 2}, false},
+			{1, []int{0, 1, 2, 3, 4}, true}, {2, []int{0, 1, 2, 3, 4}, true}}
 		bufs, batches = []int{1, 2, 3}, []int{0, 2, 3}
 	}
 	type cfg struct {
@@ -135,22 +147,35 @@ func gen(r *vlib.R) iter.Seq[Case] {
 			for _, b := range blocks {
 				opts := make([][]StoreSpec, b.k)
 				radix := make([]int, b.k)
+				ekinds, hkinds := []string{""}, []string{""}
+				if b.kinds {
+					ekinds, hkinds = errKinds, hangKinds
+				}
+				if !timeout {
+					hkinds = nil
+				}
 				for i := range opts {
-					opts[i] = storeOptions(i, b.shapes, timeout)
+					opts[i] = storeOptions(i, b.shapes, ekinds, hkinds)
 					radix[i] = len(opts[i])
 				}
 				n := int64(0)
 				for idx := range vlib.Odometer(radix...) {
 					stores := make([]StoreSpec, b.k)
-					failing := 0
+					failing, kinded := 0, 0
 					for i, j := range idx {
 						stores[i] = opts[i][j]
 						if stores[i].Fault != "" {
 							failing++
 						}
+						if stores[i].Kind != "" {
+							kinded++
+						}
 					}
 					if failing == 0 {
 						continue // not a fault sequence
+					}
+					if b.kinds && kinded == 0 {
+						continue // enumerated by the plain block
 					}
 					n++
 					for _, c := range cfgs {
@@ -159,7 +184,11 @@ func gen(r *vlib.R) iter.Seq[Case] {
 						}
 					}
 				}
-				r.Set(fmt.Sprintf("block_stores=%d_timeout=%v", b.k, timeout), fmt.Sprintf("%d fault assignments (shapes %v) x %d configurations", n, b.shapes, len(cfgs)))
+				key := fmt.Sprintf("block_stores=%d_timeout=%v", b.k, timeout)
+				if b.kinds {
+					key += "_errkinds"
+				}
+				r.Set(key, fmt.Sprintf("%d fault assignments (shapes %v) x %d configurations", n, b.shapes, len(cfgs)))
 			}
 		}
 	}
@@ -196,14 +225,51 @@ func runProxy(c Case) (*collectServer, error) {
 	return srv, err
 }
 
+// faultName names a store's fault in violation signatures: open | recv | timeout, followed by the error kind
+// in parentheses when it is not the plain one, e.g. "recv(grpc-canceled)", "timeout(grpc)".
+func faultName(sp StoreSpec) string {
+	k := sp.Fault
+	if k == "hang" {
+		k = "timeout"
+	}
+	if sp.Kind != "" {
+		k += "(" + sp.Kind + ")"
+	}
+	return k
+}
+
+// runInBubble runs the request inside a fresh synctest bubble. crash is non-empty when Series panicked on the
+// calling goroutine or when synctest found the bubble deadlocked (all goroutines durably blocked, no timer
+// pending), which it reports by panicking in the goroutine that called synctest.Test.
+func runInBubble(t *testing.T, c Case) (srv *collectServer, err error, crash string) {
+	defer func() {
+		if p := recover(); p != nil {
+			crash = fmt.Sprintf("synctest: %v", p)
+		}
+	}()
+	synctest.Test(t, func(t *testing.T) {
+		defer func() {
+			if p := recover(); p != nil {
+				crash = fmt.Sprintf("panic in Series: %v", p)
+			}
+		}()
+		srv, err = runProxy(c)
+	})
+	if srv == nil && crash == "" {
+		crash = "synctest bubble ended without a result"
+	}
+	return srv, err, crash
+}
+
 func TestCheck(t *testing.T) {
 	r := vlib.New(t, "C06")
 	defer r.Finish()
 	r.Rule("fault assignments = product over stores of (stream shape x {healthy, open error, Recv error at every k in 0..#frames, hang at every k in 0..#frames (timeout runs only)}) with >= 1 failing store " +
-		"(sizes in coverage.block_*), each x {WARN, ABORT, legacy PartialResponseDisabled bit alone (= abort)} x {eager, lazy buf 1..2(3)} x batch {0,2(,3)} x response timeout {none, 1s}; " +
+		"(sizes in coverage.block_*); in the *_errkinds blocks (1..2 stores) every failing store additionally ranges over the error KIND it fails with: open/recv x {plain, gRPC status Canceled, DeadlineExceeded, Unavailable, Aborted, bare context.Canceled, bare context.DeadlineExceeded, io.ErrUnexpectedEOF}, hang x {bare context error, gRPC status made of it}; each x {WARN, ABORT, legacy PartialResponseDisabled bit alone (= abort)} x {eager, lazy buf 1..2(3)} x batch {0,2(,3)} x response timeout {none, 1s}; " +
 		"non-trivial = distinct fault assignment+configuration in which a healthy store with data coexists with a failing store, or a store fails after having delivered >= 1 frame")
 	r.Assume("every run happens inside a testing/synctest bubble: the 1s frame timeout elapses on the virtual clock exactly when all goroutines are durably blocked, so a hanging Recv is cancelled deterministically",
-		"a hanging store returns the context error once the proxy cancels the call, as a gRPC client stream does",
+		"a hanging store returns the context error once the proxy cancels the call: the bare ctx.Err() (in-process client) or, kind grpc, status.FromContextError(ctx.Err()) = code Canceled, which is what a real gRPC client stream returns",
+		"every error value of the kind alphabet is a non-nil error other than io.EOF, hence a failure of the stream (grpc.ClientStream.RecvMsg: io.EOF on success, 'on any other error the stream is aborted'); no wrapped io.EOF is injected",
 		"a request with the deprecated PartialResponseDisabled bit and no strategy is an abort request (rpc.proto: 'Deprecated. Use partial_response_strategy instead'); it gets its own violation signature; the bit combined with an explicit ABORT adds nothing and is not enumerated",
 		"goroutine interleavings are whatever the Go scheduler picks (the E1 part of C06 explores them); the oracle does not depend on them")
 
@@ -233,11 +299,10 @@ func TestCheck(t *testing.T) {
 		}
 		kinds := map[string]bool{}
 		for _, i := range failed {
-			k := c.Stores[i].Fault
-			if k == "hang" {
-				k = "timeout"
+			kinds[faultName(c.Stores[i])] = true
+			if ek := c.Stores[i].Kind; ek != "" {
+				r.Add("failing_stores_with_error_kind_"+c.Stores[i].Fault+"/"+ek, 1)
 			}
-			kinds[k] = true
 		}
 		var ks []string
 		for k := range kinds {
@@ -250,11 +315,17 @@ func TestCheck(t *testing.T) {
 			retr = "lazy"
 		}
 
-		var srv *collectServer
-		var err error
-		synctest.Test(t, func(t *testing.T) {
-			srv, err = runProxy(c)
-		})
+		srv, err, crash := runInBubble(t, c)
+		if crash != "" {
+			// a panic of Series on the calling goroutine, or a bubble in which every goroutine is blocked for good
+			// with no timer left (Series never returns): neither "fails" nor "succeeds" as the statement requires
+			sig := "series-call-panicked-"
+			if strings.Contains(crash, "deadlock") {
+				sig = "series-call-never-returns-"
+			}
+			r.Violation(sig+"on-"+kindStr+"-failure-"+retr, fmt.Sprintf("stores %v failed; %s", failed, crash), c)
+			return
+		}
 
 		for _, w := range srv.warnings {
 			if strings.Contains(w, "failed to receive any data in 1s") {
@@ -292,11 +363,7 @@ func TestCheck(t *testing.T) {
 				}
 			}
 			if !found {
-				k := c.Stores[i].Fault
-				if k == "hang" {
-					k = "timeout"
-				}
-				r.Violation(fmt.Sprintf("warn-no-warning-for-store-with-%s-failure-%s", k, retr),
+				r.Violation(fmt.Sprintf("warn-no-warning-for-store-with-%s-failure-%s", faultName(c.Stores[i]), retr),
 					fmt.Sprintf("%s failed (%s at %d) but no warning names it; warnings: %v", name, c.Stores[i].Fault, c.Stores[i].At, srv.warnings), c)
 			}
 		}
